@@ -178,6 +178,10 @@ func genC08(tier string, seed uint64, emit0 func(string)) {
 		acts = append(acts, "stop")
 		emit0(lifeLine(cfg, acts))
 	}
+	// a second Start on the running server fails (the ports are its own) and changes nothing: the gate is as it was,
+	// for new connections and on both ports
+	emit0(lifeLine("plain pw=old", []string{"start", "ping:p", "pingold:p", "start", "pingold:p", "ping:p", "start", "start", "pingold:p", "restart", "pingold:p", "ping:p", "stop"}))
+	emit0(lifeLine("plain tls pw=old", []string{"start", "pingold:t", "start", "pingold:p", "pingold:t", "ping:t", "setpw:new", "start", "pingold:p", "ping:p", "restart", "pingold:t", "ping:p", "stop"}))
 	// with a certificate rule next to the password: a verified client with the right name still needs the password
 	emit0(lifeLine("tls cn=client pw=old", []string{"start", "pingold:t", "ping:t", "pingold:t", "setpw:new", "restart", "pingold:t", "ping:t", "stop"}))
 	// every third case is also run on connections served as TLS connections are (tlsState present): the password gate
@@ -375,6 +379,13 @@ func oracleC08(pw *string, sched []sysStep, events []string) (string, []string) 
 
 func genC13(tier string, seed uint64, emit0 func(string)) {
 	r := NewRng(seed)
+	// the application stops or restarts the server while a command of a connection is inside the handler: what the
+	// handler sees of that connection stays what the connection's own requests made it, to the end of the command
+	for _, how := range []string{"stop", "restart"} {
+		emit0("stopinflight 3 - " + how)
+		emit0("stopinflight 7 secret " + how)
+		emit0("stopinflight 0 secret " + how)
+	}
 	nth := 0
 	emit := func(line string) {
 		emit0(line)
